@@ -155,7 +155,7 @@ def expect_document(desc, t2l, s2l):
 
 def judge_document(desc, img, bad, obs, t2l, s2l, what):
     verdict = judge(img, bad, obs, t2l, s2l, what)
-    if verdict and 'frozenset' in P.spell(desc):
+    if verdict and not verdict[0].startswith('finalize-unhashable') and 'frozenset' in P.spell(desc):
         # diagnosis: is the disagreement exactly "a host frozenset was read as a plain iterable, not as a set"?
         bad2 = []
         img2 = P.image(P.build(desc, twin=True, frozenset_as_iterator=True), t2l, s2l, bad2)
